@@ -84,6 +84,25 @@ pub fn check(case: &C12Case, st: &mut Stats) -> Verdict {
                 return Err(fail("shape", format!("{:?} does not have the form of a SHA-256 digest (43 base64url characters / 32 bytes)", d)));
             }
         }
+        // a decoy must not be computable from anything else in the credential: not the hash of
+        // another digest string, of a disclosure string or of a salt (then it is recognisable)
+        {
+            let mut derived: HashSet<String> = HashSet::new();
+            for d in &r.all_digests {
+                derived.insert(crate::codec::digest(d));
+            }
+            for (i, d) in parts.disclosures.iter().enumerate() {
+                if let Some(salt) = r.decoded[i].as_ref().and_then(|v| v.get(0)).and_then(serde_json::Value::as_str) {
+                    derived.insert(crate::codec::digest(salt));
+                }
+                derived.insert(crate::codec::digest(&crate::codec::digest(d)));
+            }
+            for d in &r.unmatched_sd {
+                if derived.contains(d) {
+                    return Err(fail("derivable", format!("the decoy digest {} is the SHA-256 of another digest / salt of the same credential: whoever sees the credential can tell it is a decoy", d)));
+                }
+            }
+        }
         if !r.unmatched_placeholders.is_empty() {
             return Err(fail("placeholder", format!("array placeholders matching no disclosure: {:?}", r.unmatched_placeholders)));
         }
@@ -137,7 +156,7 @@ pub fn check(case: &C12Case, st: &mut Stats) -> Verdict {
         views.push(claims);
     }
     let expected = expected_claims(&tree, &sel.paths, HolderKey::None);
-    if views[0] != views[1] || views[0] != expected {
+    if crate::exact::differs(&views[0], &views[1]) || crate::exact::differs(&views[0], &expected) {
         return Err(Failure::new(
             "decoy:verifier-differs",
             format!("verified claims differ\n  decoys on:  {}\n  decoys off: {}\n  expected:   {}", views[0], views[1], expected),
